@@ -1,0 +1,14 @@
+//go:build verif
+
+package stream
+
+// Accessors for the verification harness (/verif, property C19). Compiled only
+// with -tags verif. They are called by the harness scheduler while every
+// goroutine of the stream is parked at a yield point (or blocked), so the
+// unlocked reads below are ordered by the park/release channel operations.
+
+// VerifDataChan returns the current input buffer reference without locking.
+func (s *Stream) VerifDataChan() chan map[string]any { return s.dataChan }
+
+// VerifExpanding reports the expansion CAS guard.
+func (s *Stream) VerifExpanding() int32 { return s.expanding }
